@@ -143,7 +143,7 @@ def lean_step(prop: str, extra_modules: list[str] | None = None, thorough: bool 
             res.broken.append(f"T1 table extraction failed: {e!r}")
             res.log += f"extract_tables: {e!r}\n"
         mods = [f"Rpft.Props.{prop}"] + (extra_modules or [])
-        cmd = ["lake", "build", "Rpft", "rpft_driver"]
+        cmd = ["lake", "build"] + mods + ["rpft_driver"]
         res.cmds.append("cd lean && " + " ".join(cmd))
         t0 = time.time()
         rc, out = _run(cmd, cwd=LEAN_DIR, timeout=3000)
